@@ -1,1 +1,269 @@
-import Batchie.Model.Chunks
+/-
+  C07 -- pairwise-distance chunks partition the work and assemble to the same matrix.
+
+  All statements are about the definitions regenerated from /repo/src/batchie/distance_calculation.py
+  (`Batchie.Gen.LowerTri`, `NumLowerTri`, `ChunkBounds`, reached through the wrappers `lowerTri`,
+  `numLowerTri`, `chunkStart/End/Err` of `Model/Chunks.lean`) and about the hand model of
+  `ChunkedDistanceMatrix` that the correspondence harness runs against the real class.
+  Quantification: all `n ≥ 0`, all `n_chunks = k ≥ 1` (including `k` larger than the number of pairs),
+  all chunk indices `0 ≤ c < k`, all metrics, all lists of chunk files.
+-/
+import Batchie.Lemmas.ChunksAssemble
+import Batchie.Lemmas.ChunksMetric
+
+namespace Batchie.Props.C07
+open Batchie.Chunks Batchie.Proto
+
+/-! ## enumeration -/
+
+/-- `list(lower_triangular_indices(n))` is exactly the pairs `0 ≤ j < i < n` in row-major order: it equals the
+    nested-range list, is strictly increasing lexicographically, has no repetition, and its length is
+    `get_number_of_lower_triangular_indices(n) = n(n-1)/2`. -/
+theorem C07_enumeration (n : Int) (hn : 0 ≤ n) :
+    lowerTri n = (List.range n.toNat).flatMap
+        (fun (i : Nat) => (List.range i).map (fun (j : Nat) => ((i : Int), (j : Int)))) ∧
+    (lowerTri n).Pairwise lexLt ∧
+    (lowerTri n).Nodup ∧
+    ((lowerTri n).length : Int) = numLowerTri n ∧
+    numLowerTri n = n * (n - 1) / 2 ∧
+    (∀ i j : Int, (i, j) ∈ lowerTri n ↔ 0 ≤ j ∧ j < i ∧ i < n) :=
+  ⟨lowerTri_eq_triSpec n, pairwise_lowerTri n, nodup_lowerTri n, length_lowerTri n hn, numLowerTri_eq n,
+   fun _ _ => mem_lowerTri⟩
+
+/-! ## chunk arithmetic -/
+
+/-- on valid input neither the `assert`, nor a division by zero, nor a negative `islice` count occurs, and
+    the chunk is the slice `[start, end)` of the enumeration -/
+theorem C07_no_error (n c k : Int) (hk : 1 ≤ k) (hc0 : 0 ≤ c) (hck : c < k) :
+    chunkErr n c k = false ∧ chunk n c k = .ok (chunkPairs n c k) := by
+  refine ⟨?_, chunk_ok n c k hk hc0 hck⟩
+  rw [chunkErr_eq]
+  have : k ≠ 0 := by omega
+  simp [hck, this]
+
+/-- the chunks are consecutive intervals `[start c, end c)` tiling `[0, N)` -/
+theorem C07_contiguous (n k : Int) (hk : 1 ≤ k) :
+    chunkStart n 0 k = 0 ∧
+    (∀ c, 0 ≤ c → c + 1 < k → chunkEnd n c k = chunkStart n (c + 1) k) ∧
+    chunkEnd n (k - 1) k = numLowerTri n ∧
+    (∀ c, 0 ≤ c → c < k →
+      0 ≤ chunkStart n c k ∧ chunkStart n c k ≤ chunkEnd n c k ∧ chunkEnd n c k ≤ numLowerTri n) := by
+  refine ⟨chunkStart_zero n k hk, fun c _ _ => chunkEnd_eq_start_succ n c k hk, ?_, ?_⟩
+  · rw [chunkEnd_eq_start_succ n (k - 1) k hk]
+    have : k - 1 + 1 = k := by omega
+    rw [this]; exact chunkStart_top n k hk
+  · intro c h0 h1
+    exact ⟨chunkStart_nonneg n c k hk h0, chunkStart_le_end n c k hk, chunkEnd_le n c k hk h1⟩
+
+/-- every chunk has `⌊N/k⌋` or `⌊N/k⌋ + 1` pairs; any two chunk sizes differ by at most one -/
+theorem C07_balanced (n k : Int) (hn : 0 ≤ n) (hk : 1 ≤ k) (c₁ c₂ : Int)
+    (h₁ : 0 ≤ c₁ ∧ c₁ < k) (h₂ : 0 ≤ c₂ ∧ c₂ < k) :
+    numLowerTri n / k ≤ ((chunkPairs n c₁ k).length : Int) ∧
+    ((chunkPairs n c₁ k).length : Int) ≤ numLowerTri n / k + 1 ∧
+    ((chunkPairs n c₁ k).length : Int) - ((chunkPairs n c₂ k).length : Int) ≤ 1 := by
+  rw [length_chunkPairs n c₁ k hn hk h₁.1 h₁.2, length_chunkPairs n c₂ k hn hk h₂.1 h₂.2,
+    chunkSize_eq, chunkSize_eq, Int.fdiv_eq_ediv_of_nonneg _ (by omega : (0 : Int) ≤ k)]
+  refine ⟨?_, ?_, ?_⟩ <;> split <;> (try split) <;> omega
+
+/-- the chunks, concatenated in index order, are the enumeration; hence they are pairwise disjoint, lie
+    inside the enumeration, and every pair `j < i < n` belongs to exactly one chunk -/
+theorem C07_partition (n k : Int) (hn : 0 ≤ n) (hk : 1 ≤ k) :
+    (List.range k.toNat).flatMap (fun (c : Nat) => chunkPairs n (c : Int) k) = lowerTri n ∧
+    (∀ c₁ c₂ : Int, 0 ≤ c₁ ∧ c₁ < k → 0 ≤ c₂ ∧ c₂ < k → c₁ ≠ c₂ →
+        ∀ p, p ∈ chunkPairs n c₁ k → p ∉ chunkPairs n c₂ k) ∧
+    (∀ c p, p ∈ chunkPairs n c k → p ∈ lowerTri n) ∧
+    (∀ i j : Int, 0 ≤ j → j < i → i < n → ∃! c : Int, (0 ≤ c ∧ c < k) ∧ (i, j) ∈ chunkPairs n c k) := by
+  refine ⟨flatMap_chunkPairs n k hn hk,
+    fun c₁ c₂ h₁ h₂ hne p => chunkPairs_disjoint n k hn hk c₁ c₂ h₁ h₂ hne p,
+    fun c p hp => chunkPairs_subset n c k hp, ?_⟩
+  intro i j h0 h1 h2
+  obtain ⟨c, hc0, hck, hp⟩ := exists_chunk_of_mem n k hn hk (i, j) (mem_lowerTri.2 ⟨h0, h1, h2⟩)
+  refine ⟨c, ⟨⟨hc0, hck⟩, hp⟩, ?_⟩
+  rintro c' ⟨hc', hp'⟩
+  by_contra hne
+  exact chunkPairs_disjoint n k hn hk c' c hc' ⟨hc0, hck⟩ hne (i, j) hp' hp
+
+/-! ## assembly -/
+
+/-- Any list `cs` of chunk indices that contains every index `0..k-1` at least once -- in any order, with
+    any repetitions -- assembles (`calculate` each chunk, `concat` in list order) to a matrix `R` that is
+    complete, holds each pair `j < i < n` exactly once, and whose dense form is symmetric, zero on the
+    diagonal, and has the metric `m i j` of the pair at `(i,j)` and `(j,i)`; the dense matrix equals the one
+    computed in a single chunk. `m i j` stands for
+    `distance_metric.distance(theta_i.predict_viability(data), theta_j.predict_viability(data))`. -/
+theorem C07_assemble {α : Type} [OfNat α 0] (n k : Int) (hn : 0 ≤ n) (hk : 1 ≤ k) (m : Int → Int → α)
+    (cs : List Int) (hvalid : ∀ c ∈ cs, 0 ≤ c ∧ c < k) (hall : ∀ c, 0 ≤ c → c < k → c ∈ cs) :
+    ∃ R : CDM α, assemble n k m cs = .ok R ∧ R.size = n ∧ R.isComplete = true ∧
+      R.keys.Nodup ∧ (∀ p, p ∈ R.keys ↔ p ∈ lowerTri n) ∧
+      (∀ i j, 0 ≤ j → j < i → i < n → denseAt R.entries i j = m i j ∧ denseAt R.entries j i = m i j) ∧
+      (∀ i, denseAt R.entries i i = 0) ∧
+      (∀ i j, denseAt R.entries i j = denseAt R.entries j i) ∧
+      R.toDense = .ok (denseSpec n (fun i j => if i = j then 0 else m (max i j) (min i j))) ∧
+      (assemble n 1 m [0]).bind CDM.toDense = R.toDense := by
+  -- the dense form is determined by the three structural facts
+  have dense : ∀ R : CDM α, R.size = n → R.isComplete = true →
+      (∀ p, p ∈ keysOf R.entries ↔ p ∈ lowerTri n) →
+      (∀ e ∈ R.entries, e.2.1 < e.1 ∧ e.2.2 = m e.1 e.2.1) →
+      (∀ i j, 0 ≤ j → j < i → i < n → denseAt R.entries i j = m i j ∧ denseAt R.entries j i = m i j) ∧
+      (∀ i, denseAt R.entries i i = 0) ∧
+      R.toDense = .ok (denseSpec n (fun i j => if i = j then 0 else m (max i j) (min i j))) := by
+    intro R hsize hcomp hkeys hent
+    have hlow : ∀ i j, 0 ≤ j → j < i → i < n →
+        denseAt R.entries i j = m i j ∧ denseAt R.entries j i = m i j := by
+      intro i j h0 h1 h2
+      have h := denseAt_lower R.entries m hent i j h1 ((hkeys (i, j)).2 (mem_lowerTri.2 ⟨h0, h1, h2⟩))
+      exact ⟨h, by rw [denseAt_symm]; exact h⟩
+    have hdiag : ∀ i, denseAt R.entries i i = 0 := denseAt_diag R.entries (fun e he => (hent e he).1)
+    refine ⟨hlow, hdiag, ?_⟩
+    rw [toDense_of_complete R hcomp, hsize]
+    congr 1
+    apply denseSpec_congr
+    intro r c hr0 hrn hc0 hcn
+    by_cases hrc : r = c
+    · subst hrc; simp [hdiag]
+    · rw [if_neg hrc]
+      rcases Int.lt_or_gt_of_ne hrc with h | h
+      · rw [(hlow c r hr0 h hcn).2]
+        congr 1 <;> omega
+      · rw [(hlow r c hc0 h hrn).1]
+        congr 1 <;> omega
+  obtain ⟨R, hR, hsize, hcomp, hnd, hkeys, hent⟩ := assemble_complete n k hn hk m cs hvalid hall
+  obtain ⟨R₁, hR₁, hsize₁, hcomp₁, _, hkeys₁, hent₁⟩ := assemble_complete n 1 hn (by omega) m [0]
+    (by intro c hc; simp at hc; omega) (by intro c h0 h1; simp; omega)
+  obtain ⟨d1, d2, d3⟩ := dense R hsize hcomp hkeys hent
+  obtain ⟨_, _, e3⟩ := dense R₁ hsize₁ hcomp₁ hkeys₁ hent₁
+  refine ⟨R, hR, hsize, hcomp, hnd, hkeys, d1, d2, fun i j => denseAt_symm _ i j, d3, ?_⟩
+  rw [hR₁, d3]
+  exact e3
+
+/-- the same with the metric spelled out: if `m i j = d (pred i) (pred j)` for a distance `d` that is
+    symmetric and zero on identical arguments, EVERY entry `(i,j)` of the assembled dense matrix is the
+    distance between the predictions of samples `i` and `j` -/
+theorem C07_assemble_metric {α β : Type} [OfNat α 0] (n k : Int) (hn : 0 ≤ n) (hk : 1 ≤ k)
+    (pred : Int → β) (d : β → β → α) (hsymm : ∀ x y, d x y = d y x) (hself : ∀ x, d x x = 0)
+    (cs : List Int) (hvalid : ∀ c ∈ cs, 0 ≤ c ∧ c < k) (hall : ∀ c, 0 ≤ c → c < k → c ∈ cs) :
+    ∃ R : CDM α, assemble n k (fun i j => d (pred i) (pred j)) cs = .ok R ∧
+      R.toDense = .ok (denseSpec n (fun i j => d (pred i) (pred j))) ∧
+      ∀ i j, 0 ≤ i → i < n → 0 ≤ j → j < n → denseAt R.entries i j = d (pred i) (pred j) := by
+  obtain ⟨R, hR, _, _, _, _, hlow, hdiag, _, hdense, _⟩ :=
+    C07_assemble n k hn hk (fun i j => d (pred i) (pred j)) cs hvalid hall
+  refine ⟨R, hR, ?_, ?_⟩
+  · rw [hdense]
+    congr 1
+    apply denseSpec_congr
+    intro r c _ _ _ _
+    by_cases hrc : r = c
+    · subst hrc; simp [hself]
+    · rw [if_neg hrc]
+      rcases Int.lt_or_gt_of_ne hrc with h | h
+      · have e1 : max r c = c := by omega
+        have e2 : min r c = r := by omega
+        rw [e1, e2]; exact hsymm _ _
+      · have e1 : max r c = r := by omega
+        have e2 : min r c = c := by omega
+        rw [e1, e2]
+  · intro i j hi0 hin hj0 hjn
+    by_cases hij : i = j
+    · subst hij; rw [hdiag, hself]
+    · rcases Int.lt_or_gt_of_ne hij with h | h
+      · rw [(hlow j i hi0 h hjn).2]; exact hsymm _ _
+      · exact (hlow i j hj0 h hin).1
+
+/-! ## refusal -/
+
+/-- a list of chunk files that lacks some index whose chunk is non-empty: the concatenation (which still
+    succeeds when the list is non-empty) is NOT complete and `to_dense` raises -/
+theorem C07_incomplete_refuses {α : Type} [OfNat α 0] (n k : Int) (hn : 0 ≤ n) (hk : 1 ≤ k)
+    (m : Int → Int → α) (cs : List Int) (hvalid : ∀ c ∈ cs, 0 ≤ c ∧ c < k)
+    (c₀ : Int) (hc₀ : 0 ≤ c₀ ∧ c₀ < k) (hmiss : c₀ ∉ cs) (hne : chunkPairs n c₀ k ≠ []) :
+    (cs = [] → assemble n k m cs = .error .valueError) ∧
+    (cs ≠ [] → ∃ R : CDM α, assemble n k m cs = .ok R ∧ R.size = n ∧
+        R.isComplete = false ∧ R.toDense = .error .valueError) := by
+  refine ⟨fun h => by rw [h]; exact assemble_nil n k m, ?_⟩
+  intro hcs
+  cases cs with
+  | nil => exact absurd rfl hcs
+  | cons c cs =>
+    obtain ⟨hnd, hkeys, _⟩ := assembled_spec n k m c cs
+    obtain ⟨p, hp⟩ := List.exists_mem_of_ne_nil _ hne
+    have hinc : CDM.isComplete ({ size := n, entries := assembled n k m (chunkEntries n c k m) cs } : CDM α)
+        = false := by
+      apply incomplete_of_missing _ hnd _ p (chunkPairs_subset n c₀ k hp)
+      · intro hmem
+        obtain ⟨c', hc', hpc'⟩ := (hkeys p).1 hmem
+        have hne' : c₀ ≠ c' := fun h => hmiss (h ▸ hc')
+        exact chunkPairs_disjoint n k hn hk c₀ c' hc₀ (hvalid c' hc') hne' p hp hpc'
+      · intro q hq
+        obtain ⟨c', _, hqc'⟩ := (hkeys q).1 hq
+        exact chunkPairs_subset n c' k hqc'
+    exact ⟨_, assemble_ok n k m hk c cs hvalid, rfl, hinc, toDense_of_incomplete _ hinc⟩
+
+/-- general form: ANY matrix whose stored pairs are distinct and lower-triangular in range, and that lacks
+    some pair `j < i < size`, is not complete and refuses to be densified -/
+theorem C07_missing_pair_refuses {α : Type} [OfNat α 0] (R : CDM α) (hnd : R.keys.Nodup)
+    (hsub : ∀ p ∈ R.keys, p ∈ lowerTri R.size) (i j : Int) (h0 : 0 ≤ j) (h1 : j < i) (h2 : i < R.size)
+    (hmiss : (i, j) ∉ R.keys) : R.isComplete = false ∧ R.toDense = .error .valueError := by
+  have h := incomplete_of_missing R hnd hsub (i, j) (mem_lowerTri.2 ⟨h0, h1, h2⟩) hmiss
+  exact ⟨h, toDense_of_incomplete R h⟩
+
+/-- why `Nodup` is a hypothesis above: `is_complete` only COUNTS entries (`current_index == N`) and
+    `add_value`'s "already calculated" tests are vacuous, so a hand-built matrix (not reachable through
+    calculate/save/load/concat, which never duplicate) with a repeated pair and a missing pair counts as
+    complete. Recorded as an observation about the class, outside the pipeline the property quantifies over. -/
+theorem C07_count_only_witness :
+    let R : CDM Int := { size := 3, entries := [(1, 0, 5), (1, 0, 5), (2, 0, 7)] }
+    (2, 1) ∈ lowerTri 3 ∧ (2, 1) ∉ R.keys ∧ R.isComplete = true := by
+  decide
+
+/-! ## the metric -/
+
+/-- `MSEDistance.distance` over the reals, with `f` = `expit` (sigmoid=True) or the identity: symmetric,
+    non-negative, zero on identical predictions -/
+theorem C07_mse_metric (f : ℝ → ℝ) (a b : List ℝ) :
+    mseDist (fun n => (n : ℝ)) f a b = mseDist (fun n => (n : ℝ)) f b a ∧
+    0 ≤ mseDist (fun n => (n : ℝ)) f a b ∧
+    mseDist (fun n => (n : ℝ)) f a a = 0 :=
+  ⟨mseDist_symm f a b, mseDist_nonneg f a b, mseDist_self f a⟩
+
+/-- the assembled matrix of the real pipeline's shape: MSE between per-sample prediction vectors -/
+theorem C07_assemble_mse (n k : Int) (hn : 0 ≤ n) (hk : 1 ≤ k) (f : ℝ → ℝ) (pred : Int → List ℝ)
+    (cs : List Int) (hvalid : ∀ c ∈ cs, 0 ≤ c ∧ c < k) (hall : ∀ c, 0 ≤ c → c < k → c ∈ cs) :
+    ∃ R : CDM ℝ,
+      assemble n k (fun i j => mseDist (fun n => (n : ℝ)) f (pred i) (pred j)) cs = .ok R ∧
+      ∀ i j, 0 ≤ i → i < n → 0 ≤ j → j < n →
+        denseAt R.entries i j = mseDist (fun n => (n : ℝ)) f (pred i) (pred j) := by
+  obtain ⟨R, h1, _, h3⟩ := C07_assemble_metric n k hn hk pred (mseDist (fun n => (n : ℝ)) f)
+    (mseDist_symm f) (mseDist_self f) cs hvalid hall
+  exact ⟨R, h1, h3⟩
+
+/-! ## non-vacuity: the hypotheses are satisfiable and the statements have content -/
+
+/-- n = 5 (10 pairs), k = 4: sizes 3,3,2,2 -/
+example : (List.range 4).map (fun (c : Nat) => chunkPairs 5 (c : Int) 4) =
+    [[(1, 0), (2, 0), (2, 1)], [(3, 0), (3, 1), (3, 2)], [(4, 0), (4, 1)], [(4, 2), (4, 3)]] := by decide
+
+/-- more chunks than pairs: n = 3 (3 pairs), k = 5, the last two chunks are empty -/
+example : (List.range 5).map (fun (c : Nat) => chunkPairs 3 (c : Int) 5) =
+    [[(1, 0)], [(2, 0)], [(2, 1)], [], []] := by decide
+
+/-- hypotheses of `C07_assemble` hold for a shuffled list with repeats, and the pipeline's value is the
+    expected matrix (metric encodes the pair) -/
+example : (∀ c ∈ [2, 0, 1, 2, 0], (0 : Int) ≤ c ∧ c < 3) ∧ (∀ c : Int, 0 ≤ c → c < 3 → c ∈ [2, 0, 1, 2, 0]) := by
+  refine ⟨by decide, ?_⟩
+  intro c h0 h1
+  have : c = 0 ∨ c = 1 ∨ c = 2 := by omega
+  rcases this with rfl | rfl | rfl <;> decide
+
+example : (assemble 4 3 (fun i j => i * 10 + j) [2, 0, 1, 2, 0]).bind CDM.toDense =
+    .ok [[0, 10, 20, 30], [10, 0, 21, 31], [20, 21, 0, 32], [30, 31, 32, 0]] := by decide
+
+/-- hypotheses of `C07_incomplete_refuses`: n = 4, k = 3, chunk 1 missing and non-empty -/
+example : (∀ c ∈ [2, 0, 2], (0 : Int) ≤ c ∧ c < 3) ∧ (1 : Int) ∉ [2, 0, 2] ∧ chunkPairs 4 1 3 ≠ [] := by decide
+
+example : (assemble 4 3 (fun i j => i * 10 + j) [2, 0, 2]).bind CDM.toDense = .error .valueError := by decide
+
+/-- a metric instance for `C07_mse_metric`: a = [1,3], b = [2,5] without sigmoid gives (1 + 4)/2 -/
+example : mseDist (fun n => (n : ℝ)) id [1, 3] [2, 5] = 5 / 2 := by
+  simp [mseDist]; norm_num
+
+end Batchie.Props.C07
